@@ -7,28 +7,28 @@ from spec import step_model as M
 
 PROPERTY = "C07"
 BOUNDS = {
-    "quick": "inductive step: two known nodes a,b (ids sym [10,99], distinct), sleeping flags symbolic, parked commands for keys (a,1,2),(a,2,2),(b,1,2) each present or absent (symbolic; 32 pre-states incl. parked-but-not-sleeping); one event of 16 kinds: send set to a|b x child 1|2 x buffering flag, receive from a|b: heartbeat response (wake in 2.0/2.1), pre-sleep notification (wake in 2.2), battery report, set; after the step writes (flush order free), outcome, registry and the complete buffer are compared with the model; 5 versions (1.x: sleeping flag set directly, no wake signal exists). Plus 2-event histories from an empty buffer (2.0, 2.2)",
+    "quick": "inductive step: two known nodes a,b (ids sym [10,99], distinct), sleeping flags symbolic, parked commands for keys (node,child,type) = (a,1,2),(a,1,3),(a,2,2),(b,1,2) each present or absent (symbolic; 64 pre-states incl. parked-but-not-sleeping); one event of 20 kinds: send set to a|b x (child,type) in {(1,2),(1,3),(2,2)} x buffering flag, receive from a|b: heartbeat response (wake in 2.0/2.1), pre-sleep notification (wake in 2.2), battery report, set; after the step writes (flush order free), outcome, registry and the complete buffer are compared with the model; 5 versions (1.x: sleeping flag set directly, no wake signal exists). Plus 2-event histories from an empty buffer (2.0, 2.2)",
     "thorough": "as quick plus 3-event histories on 2.0, 2.1, 2.2 and 2-event histories on 1.4/1.5",
 }
 REALISED = []
 STUBS = ["RecTransport", "symbolic maps", "__repr__ -> constant"]
-ASSUMPTIONS = ["child ids {1,2}, value type 2 and payload texts are concrete; the buffer key logic does not inspect them beyond equality",
+ASSUMPTIONS = ["child ids {1,2}, value types {2,3} and payload texts are concrete; the buffer key logic does not inspect them beyond equality",
                "pre-states with parked commands are built through the real Gateway.send while the node is flagged sleeping; 'parked but not sleeping' is reached by clearing the flag as a re-presentation does",
                "the order in which a node's parked commands are released is not specified; writes of one flush are compared as multisets"]
 MUST_REACH = ["parked", "released", "written-now", "nothing-to-release", "history-ok"]
 
-KEYS = [("a", 1), ("a", 2), ("b", 1)]
+KEYS = [("a", 1, 2), ("a", 1, 3), ("a", 2, 2), ("b", 1, 2)]  # (node, child, value type)
 
 
 def partitions(tier):
     q = tier == "quick"
     parts = []
     for v in VERSIONS:
-        for g in range(4):
+        for g in range(5):
             parts.append({"name": "step-%s-g%d" % (v, g), "fn": "sym_step", "version": v, "group": g, "budget": 600 if q else 3000, "cost": 5})
         if (q and v in ("2.0", "2.2")) or not q:
             steps = 2 if (q or v in ("1.4", "1.5")) else 3
-            for first in range(4):
+            for first in range(5):
                 parts.append({"name": "hist-%s-f%d" % (v, first), "fn": "sym_hist", "version": v, "steps": steps, "first": first,
                               "budget": 600 if q else 3600, "cost": 6 if steps == 2 else 20})
     return parts
@@ -72,15 +72,16 @@ def do_event(w, inp, a, b, ev, tagacc, tag=""):
     kind, who, child, buffering, payload = ev
     n = a if who == 0 else b
     if kind == "send":
+        child, vtype = child
         before = len(w.tr.writes)
         try:
-            run(w.gw.send(Message(n, child, 1, 0, 2, payload), message_buffer=buffering))
+            run(w.gw.send(Message(n, child, 1, 0, vtype, payload), message_buffer=buffering))
         except (Reject, Violation):
             raise
         except Exception as e:  # noqa: BLE001
             raise Violation("send-raises:%s" % type(e).__name__, str(e)[:150])
         writes = w.tr.writes[before:]
-        mw = M.send_set(w.st, n, child, 2, payload, buffering)
+        mw = M.send_set(w.st, n, child, vtype, payload, buffering)
         compare_multiset(writes, mw, "send-writes")
         tagacc.append("written-now" if mw else "parked")
     else:
@@ -115,8 +116,9 @@ def _two_nodes(inp, w):
     return a, b
 
 
-EVENTS = ([("send", who, child, buf, None) for who in (0, 1) for child in (1, 2) for buf in (True, False)]
+EVENTS = ([("send", who, ct, buf, None) for who in (0, 1) for ct in ((1, 2), (1, 3), (2, 2)) for buf in (True, False)]
           + [(k, who, None, None, None) for k in ("hb", "presleep", "battery", "set") for who in (0, 1)])
+assert len(EVENTS) == 20
 
 
 def sym_step(inp, part):
@@ -125,14 +127,14 @@ def sym_step(inp, part):
     ids = {"a": a, "b": b}
     # parked entries (built through the real send while sleeping)
     flags = {}
-    for i, (who, child) in enumerate(KEYS):
+    for i, (who, child, vtype) in enumerate(KEYS):
         flags[i] = inp.bool("parked%d" % i)
     for nid in (a, b):
         w.gw.nodes[nid].sleeping = True
         M.aget(w.st.nodes, nid).sleeping = True
-    for i, (who, child) in enumerate(KEYS):
+    for i, (who, child, vtype) in enumerate(KEYS):
         if flags[i]:
-            w.park(ids[who], child, 2, "old%d" % i)
+            w.park(ids[who], child, vtype, "old%d" % i)
     sa = inp.bool("sleep_a")
     sb = inp.bool("sleep_b")
     for nid, s in ((a, sa), (b, sb)):
